@@ -202,6 +202,8 @@ func extras(dir string) []string {
 
 var errCB = errors.New("callback failed")
 
+var errPanicked = errors.New("panic left WriteFileWithMode")
+
 var errnoNames = map[syscall.Errno]string{
 	syscall.ENOSPC: "ENOSPC", syscall.EIO: "EIO", syscall.EACCES: "EACCES", syscall.EISDIR: "EISDIR",
 	syscall.ENOTEMPTY: "ENOTEMPTY", syscall.EEXIST: "EEXIST", syscall.EBADF: "EBADF", syscall.ENOENT: "ENOENT",
@@ -215,6 +217,8 @@ func resCode(err error) string {
 	}
 	var en syscall.Errno
 	switch {
+	case errors.Is(err, errPanicked):
+		return "panic"
 	case errors.Is(err, errCB):
 		return "cb"
 	case errors.Is(err, os.ErrClosed):
